@@ -72,7 +72,8 @@ def cases(thorough):
                         yield {"block": "U", "op": op, "d1": d1, "s1": s1, "u1": u1, "vset": vset}
 
 
-OTHER_UNIT = {"length": "km", "mass": "kg", "time": "yr", "velocity": "km/s", "density": "kg/m**3", "energy": "J", "dimensionless": "dimensionless"}
+OTHER_UNIT = {"length": "km", "mass": "kg", "time": "yr", "velocity": "km/s", "density": "kg/m**3", "energy": "J", "dimensionless": "dimensionless",
+              "temperature": "mK"}
 
 
 def family_of(u):
@@ -105,15 +106,12 @@ def make_other(kind, u1, shape):
         elif kind == "Q_other":
             u = OTHER_UNIT[fam]
         elif kind == "Q_incompat":
-            u = "K" if fam != "dimensionless" else "s"
+            u = "K" if fam not in ("dimensionless", "temperature") else "s"
         else:
             u = OTHER_UNIT[fam]
         mag = 2.0 if kind != "Q_nd" else _arr.values_for(shape, np.float64, 0, 1)
         q = mag * osyris.units(u)
-        if u == "K":
-            s, d, t = 1.0, M2.dims_of(K=1), 0.0
-        else:
-            s, d, t = _arr.uinfo(u)
+        s, d, t = _arr.uinfo(u)
         return q, np.asarray(mag, dtype=float) * s, d, t
     raise KeyError(kind)
 
